@@ -51,6 +51,9 @@ pub enum IterKind {
     Iter,
     Keys,
     Values,
+    /// `Clone` of the shared collection while others write to it: the clone is one more
+    /// iterator-based view (read back entry by entry, then dropped inside the operation)
+    Clone,
 }
 
 #[derive(Clone, Debug, PartialEq, Eq)]
@@ -170,6 +173,7 @@ fn ik_s(k: IterKind) -> &'static str {
         IterKind::Iter => "iter",
         IterKind::Keys => "keys",
         IterKind::Values => "values",
+        IterKind::Clone => "clone",
     }
 }
 fn ik_p(s: &str) -> Option<IterKind> {
@@ -177,6 +181,7 @@ fn ik_p(s: &str) -> Option<IterKind> {
         "iter" => IterKind::Iter,
         "keys" => IterKind::Keys,
         "values" => IterKind::Values,
+        "clone" => IterKind::Clone,
         _ => return None,
     })
 }
